@@ -30,6 +30,10 @@ type Mem struct {
 	After Hook
 	// NoSubFetch hides SubFetch (returns blob.ErrUnimplemented).
 	NoSubFetch bool
+	// MaxPage, if > 0, caps every enumeration page at MaxPage blobs even when the caller's limit is
+	// larger and more blobs remain: BlobEnumerator only promises "at most limit", and remote stores
+	// do answer with short pages. Callers must page until an empty page, not until a short one.
+	MaxPage int
 
 	mu sync.Mutex
 	m  map[blob.Ref][]byte
@@ -147,6 +151,9 @@ func (s *Mem) EnumerateBlobs(ctx context.Context, dest chan<- blob.SizedRef, aft
 	}
 	s.mu.Unlock()
 	sort.Slice(list, func(i, j int) bool { return list[i].Ref.String() < list[j].Ref.String() })
+	if s.MaxPage > 0 && limit > s.MaxPage {
+		limit = s.MaxPage
+	}
 	for i, sb := range list {
 		if i >= limit {
 			break
